@@ -4,10 +4,11 @@
 
   * `innerMatch_append`, `searchNext_append` : generic, for every table satisfying `TblOk`
     (rows stay inside the table, rows below `match_limit` carry no match, rows above carry one).
-  * `protoTbl_ok` : the generated table of `proto_init()` satisfies `TblOk` (kernel check over
-    all 189 rows × 64 symbols).
+  * `protoTbl_ok` : the generated table of `proto_init()` satisfies `TblOk` (from the generic kernel
+    check `C10.proto_wfCheck` over all rows × symbols of the generated table; table-independent).
 -/
 import Masscanned.Model.Dispatch
+import Masscanned.Proofs.C10.ProtoClosure
 namespace Masscanned.C11.Aux
 open Masscanned SmackTbl
 
@@ -191,65 +192,27 @@ theorem searchNext_append {T : SmackTbl} {N : Nat} (ok : TblOk T N) (st : Nat) (
 
 /-! ### the generated table of `proto_init()` -/
 
-theorem forall_lt_of_all' (n : Nat) (P : Nat → Bool) (h : (List.range n).all P = true) :
-    ∀ k, k < n → P k = true := by
-  intro k hk
-  exact List.all_eq_true.1 h k (List.mem_range.2 hk)
-
-theorem proto_c2s : (List.range 256).all (fun c => decide (Gen.ProtoSmack.c2s c < 64)) = true := by
-  decide +kernel
-
-theorem proto_trans :
-    (List.range 12096).all (fun k => decide (Gen.ProtoSmack.trans k < 189)) = true := by
-  decide +kernel
-
-theorem proto_cnt_low : (List.range 170).all (fun r => decide (Gen.ProtoSmack.cnt r = 0)) = true := by
-  decide +kernel
-
-/-- rows 170..188 are match rows: one id each, between 1 and 8 -/
-theorem proto_cnt_high :
-    (List.range 19).all (fun j =>
-      decide (Gen.ProtoSmack.cnt (170 + j) ≠ 0) &&
-      (match (Gen.ProtoSmack.ids (170 + j))[Gen.ProtoSmack.cnt (170 + j) - 1]? with
-       | some id => decide (1 ≤ id ∧ id ≤ 8)
-       | none => false)) = true := by
-  decide +kernel
-
-theorem protoTbl_ok : TblOk protoTbl 189 where
-  lim_le := by decide
-  n_le := by decide
-  n_small := by decide
-  transLen_eq := by decide
-  c2s_lt := by
-    intro b
-    have := forall_lt_of_all' _ _ proto_c2s b.toNat b.toNat_lt
-    simp only [decide_eq_true_eq] at this
-    exact this
-  trans_lt := by
-    intro k hk
-    have := forall_lt_of_all' _ _ proto_trans k hk
-    simp only [decide_eq_true_eq] at this
-    exact this
+/-- `TblOk` follows from the generic range facts `C10.WF` (kernel check `C10.wfCheck`, quantified over the
+    generated definitions: no row count or match limit of the compiled table is written down) -/
+theorem tblOk_of_wf {T : SmackTbl} {N : Nat} (w : C10.WF T N) (hl : T.matchLimit ≤ N) : TblOk T N where
+  lim_le := hl
+  n_le := w.N_le
+  n_small := Nat.le_of_lt w.N_lt
+  transLen_eq := w.transLen_eq
+  c2s_lt := fun b => w.c2s_lt _ (C10.u8_lt_258 b)
+  trans_lt := w.trans_lt
   cnt_low := by
     intro r hr
-    have := forall_lt_of_all' _ _ proto_cnt_low r hr
-    simp only [decide_eq_true_eq] at this
-    exact this
+    have := w.match_iff r (by omega)
+    omega
   cnt_high := by
     intro r h1 h2
-    have h1' : 170 ≤ r := h1
-    have := forall_lt_of_all' _ _ proto_cnt_high (r - 170) (by omega)
-    have e : 170 + (r - 170) = r := by omega
-    rw [e] at this
-    simp only [Bool.and_eq_true, decide_eq_true_eq] at this
-    obtain ⟨hc, hid⟩ := this
-    refine ⟨hc, ?_⟩
-    split at hid
-    · rename_i id hq
-      simp only [decide_eq_true_eq] at hid
-      exact ⟨id, hq, by unfold noMatch; omega⟩
-    · cases hid
+    have hc : T.cnt r ≠ 0 := (w.match_iff r h2).mpr h1
+    have hlen := w.ids_len r h2
+    have hlt : T.cnt r - 1 < (T.ids r).length := by omega
+    exact ⟨hc, _, List.getElem?_eq_getElem hlt, w.ids_ne r h2 _ (List.getElem_mem hlt)⟩
 
-theorem protoTbl_matchLimit : protoTbl.matchLimit = 170 := rfl
+theorem protoTbl_ok : TblOk protoTbl Gen.ProtoSmack.nrows :=
+  tblOk_of_wf C10.proto_wf (by decide)
 
 end Masscanned.C11.Aux
